@@ -908,6 +908,13 @@ def run(res):
     sinit_campaign(res, b)
     if not res.violations:
         detach_campaign(res, b)
+    # the bodies the wrappers forward to (C16_forwarding), free running with real parallelism: what the program families
+    # below cannot time precisely (callers released together on fresh once controls, notify-after-unlock, contended locks)
+    for kind, shapes in (("once", [(4, 4, 500, 2), (8, 8, 300, 0), (2, 3, 800, 1)]),
+                         ("mutex", [(4, 6, 3000, 2), (8, 8, 1500, 0)]),
+                         ("cond2", [(8, 8, 20000, 2), (4, 6, 20000, 1)])):
+        if not res.violations:
+            sched_common.free_stress(res, PID, kind, shapes)
     # ---- differential campaign
     nprog = 40 if res.tier == "quick" else 330
     rng = common.Splitmix(res.seed * 104729 + 11)
@@ -962,6 +969,8 @@ def run(res):
 # --------------------------------------------------------------------------------------------
 
 def replay(path):
+    if os.path.isfile(path) and path.endswith("stress.txt") and open(path).readline().startswith("sync_stress_prog"):
+        return sched_common.replay_stress(PID, path)
     if os.path.isdir(path):
         exe_args = open(os.path.join(path, "args.txt")).readline().split()
         b, err = build_all()
